@@ -45,6 +45,7 @@ INT_LOCK = re.compile(r'^(std::sync::Arc<)?std::sync::(RwLock|Mutex)<(usize|u8|u
 def init_fields(facts):
     """The shared state of a search: the result cache plus any number of integer COUNTERS behind their own lock (statistics).  Every such
     counter is subject to the same discipline (R2: its value reaches nothing but itself; R4: lock order) - a maintainer may add one."""
+    PAR_CLOSURES[:] = [par_task(facts, SEARCH), par_task(facts, 'chess::move_generator::MoveGenerator::count_positions')]
     adt = facts.adts.get(SC)
     if adt is None:
         return
@@ -376,7 +377,7 @@ def r2_non_interference(ctx):
     rule = 'C09.R2-counters'
     facts = ctx.facts
     cfs = [x for x in search_cache_fns(facts) if x]
-    targets = [MINIMAX] + cfs + [SEARCH, SEARCH + '::{closure#0}']
+    targets = [MINIMAX] + cfs + [SEARCH, PAR_CLOSURES[0]]
     n = 0
     for name in targets:
         if facts.fns.get(name) is None:
